@@ -709,6 +709,7 @@ int vorbis_synthesis_restart(vorbis_dsp_state *v){
   v->sequence=-1;
   v->eofflag=0;
   ((private_state *)(v->backend_state))->sample_count=-1;
+  ((private_state *)(v->backend_state))->lapped=0;
 
   return(0);
 }
@@ -756,6 +757,8 @@ int vorbis_synthesis_blockin(vorbis_dsp_state *v,vorbis_block *vb){
 
     int thisCenter;
     int prevCenter;
+
+    b->lapped=0; /* a new block: the buffer is a two-fragment ring again */
 
     v->glue_bits+=vb->glue_bits;
     v->time_bits+=vb->time_bits;
@@ -981,6 +984,13 @@ int vorbis_synthesis_lapout(vorbis_dsp_state *v,float ***pcm){
 
   if(v->pcm_returned<0)return 0;
 
+  /* the buffer of the current block is consolidated once; asking again
+     (ov_crosslap after a lapped seek, several crosslaps into one
+     handle) must hand out the same region, not move the data and
+     pcm_returned further up until they leave the buffer */
+  if(((private_state *)(v->backend_state))->lapped)goto expose;
+  ((private_state *)(v->backend_state))->lapped=1;
+
   /* our returned data ends at pcm_returned; because the synthesis pcm
      buffer is a two-fragment ring, that means our data block may be
      fragmented by buffering, wrapping or a short block not filling
@@ -1033,6 +1043,7 @@ int vorbis_synthesis_lapout(vorbis_dsp_state *v,float ***pcm){
     }
   }
 
+ expose:
   if(pcm){
     int i;
     for(i=0;i<vi->channels;i++)
